@@ -1270,6 +1270,10 @@ pub fn specs(thorough: bool) -> Vec<Spec> {
       }
     }
   }
+  // (a single value that is no list, positional and named: it is taken for a list of one item)
+  for single in [Bool(true), Bool(false), Null, n(1)] {
+    tb.push(vec![single]);
+  }
   for name in ["all", "any"] {
     out.push(Spec { name, params: Some(vec!["list"]), tuples: tb.clone() });
     let mut tv = vec![vec![]];
